@@ -220,11 +220,49 @@ def grid_case(item):
     return (n, nontrivial, viols, indomain)
 
 
+def nested_case(item):
+    """a sub-strategy whose whole-unit / fractional setting differs from the root's: its securities
+    (declared, or created on first use) are sized by the mode of the strategy that owns them"""
+    bt = rt.bt()
+    p, root_int, sub_int, decl, amount = item
+    idx = pd.DatetimeIndex(["2020-01-01", "2020-01-02", "2020-01-03"])
+    data = pd.DataFrame({"x": [p, p, p], "y": [1.0, 1.0, 1.0]}, index=idx, dtype=float)
+    sub = bt.Strategy("s", [], [bt.Security("x")] if decl == "eager" else ["x"])
+    root = bt.Strategy("r", [], [sub, bt.Security("y")])
+    root.use_integer_positions(root_int)
+    # (children are copied into the tree: the setting is made on the node that is in the tree)
+    if decl != "lazy_after_setup":
+        root["s"].use_integer_positions(sub_int)
+    root.setup(data)
+    if decl == "lazy_after_setup":
+        root["s"].use_integer_positions(sub_int)
+    sub = root["s"]
+    root.adjust(CAP)
+    root.update(idx[0])
+    root.allocate(CAP / 2.0, child="s")
+    root.update(idx[0])
+    root.update(idx[1])
+    c0 = sub.capital
+    try:
+        sub.allocate(amount, child="x")
+        root.update(root.now)
+        sec = sub["x"]
+        obs = {"q": float(sec.position), "spent": c0 - sub.capital, "pos1": float(sec.position), "value0": 0.0}
+    except Exception as e:
+        obs = {"raised": rt.guard_id(e) or ("crash:" + rt.describe(e))}
+    j = judge(obs, 0.0, amount, p, 1.0, None, None, sub_int)
+    if j is None:
+        return (1, 1 if obs.get("q") else 0, [])
+    return (1, 0, [{"rule": j[0], "expected": dict(j[1], sized_as="whole units" if sub_int else "fractional", root_mode=root_int), "observed": obs, "point": [p, 1.0, None, None, sub_int, 0.0, amount, "nested", root_int, decl]}])
+
+
 def replay(case):
     pt = case["point"]
     p, m, spread, feename, integer, pos, amount = pt[:7]
     if p is None:
         p = float("nan")
+    if len(pt) > 7 and pt[7] == "nested":
+        return [dict(v, point=None) for v in nested_case((p, pt[8], integer, pt[9], amount))[2]]
     root, spy = _tree(p, m, spread, feename, integer, p_prev=1.0 if (p != p or p == 0.0) else None)
     if len(pt) > 7:
         # third date: the same request was made on the second date first, nothing in between
@@ -271,7 +309,7 @@ def grid(tier, seed):
         poss = [0.0, 3.0, -3.0, 10.0, -10.0, 7.0, -7.0]
         amounts = [x * 0.5 for x in range(-80, 81)] + [1000000.0, -1000000.0, 65536.25, -123456.5]
         spreads = [None, 0.5]
-        fees = [None, "flat", "prop", "pershare", "maxflat"]
+        fees = [None, "flat", "prop", "pershare", "maxflat", "selllevy"]
         modes = [True, False]
     else:
         prices = [1.0, 2.0, 2.5, 10.0, 100.0, 3.3, 0.7, 101.37, 10.1, 9.99]
@@ -279,7 +317,7 @@ def grid(tier, seed):
         poss = [0.0, 3.0, -3.0, 10.0, -10.0, 3.5, -3.5, 1.0, -1.0, 25.0, 7.0, -7.0]
         amounts = [x * 0.25 for x in range(-320, 321)] + [1000.0, -1000.0, 12345.67, -999.99, 1000000.0, -1000000.0, 65536.25, -123456.5]
         spreads = [None, 0.0, 0.5, 0.25]
-        fees = [None, "flat", "prop", "pershare", "maxflat", "propdec", "mixdec"]
+        fees = [None, "flat", "prop", "pershare", "maxflat", "propdec", "mixdec", "selllevy"]
         modes = [True, False]
     lines = []
     for p, m, sp, fe, integer, pos in itertools.product(prices, mults, spreads, fees, modes, poss):
@@ -294,7 +332,7 @@ def grid(tier, seed):
 
 
 def run(ctx):
-    ctx.rule = "full Cartesian grid price x multiplier x spread x fee x mode x position x amount (plus the closing amount -value, amount 0, NaN/zero price); a point is non-trivial if it lies inside the property's domain and a non-zero quantity was traded"
+    ctx.rule = "full Cartesian grid price x multiplier x spread x fee x mode x position x amount (plus the closing amount -value, amount 0, NaN/zero price); root mode x sub-strategy mode x declared / lazily created security x amount in a two-level tree; a point is non-trivial if it lies inside the property's domain and a non-zero quantity was traded"
     ctx.assumptions += [
         "fee families: none, flat 1, proportional 1/8, per-share 1/4, max(1,|q|/8) (+ decimal 0.1% and 1%+0.5 in thorough); grid points whose fee is not below the unit price minus half spread are outside the property's domain and not judged",
         "cost(q) = q*p*m + |q|*spread/2*m + fee(q, p*m), cost(0) = 0; integer: q* = max{q : cost(q) <= amount} by bisection on the strictly increasing cost",
@@ -317,5 +355,14 @@ def run(ctx):
         ctx.add(states=pts, transitions=pts, traces_validated_against_impl=pts, evaluations=pts)
         ctx.nontrivial_count += nt
         ctx.extra.setdefault("grids", []).append({"build": kind, "points": pts, "in_domain_traded": nt})
+    nested = [(p, ri, si, decl, a) for p in (2.5, 10.1, 100.0) for ri in (True, False) for si in (True, False) for decl in ("lazy", "eager", "lazy_after_setup") for a in (7.5, 25.0, 123.45, 1234.5)]
+    for kind in kinds:
+        for item, (n, nontrivial, viols) in ctx.run(kind, MOD, "nested_case", nested, chunksize=8):
+            ctx.add(states=n, transitions=n, traces_validated_against_impl=n, evaluations=n)
+            ctx.nontrivial_count += nontrivial
+            for v in viols:
+                pt = v.pop("point", None)
+                ctx.violation(dict(v, build=kind, module=MOD, case={"point": pt}))
+    ctx.bounds["nested_mode_cases"] = len(nested)
     ctx.sample({"point": {"price": 10.0, "multiplier": 2.0, "spread": 0.5, "fee": "maxflat", "integer": True, "position": -3.0, "amount": 25.5}})
     ctx.sample({"line": [str(x) for x in lines[len(lines) // 2][:6]]})
